@@ -350,36 +350,77 @@ pub struct WorkReq {
 }
 
 impl WorkReq {
+    /// Handler behaviours are derived from the nonce so that every scenario
+    /// gets them without asking.  bit 0: handlers of odd nonces that do real
+    /// work drop their request context early (a server must not depend on
+    /// handlers holding it).  bit 2: every third handler with a non-empty
+    /// response streams its body in chunks with pauses instead of returning
+    /// it in one piece.
+    fn flags(&self) -> u32 {
+        let mut f = 0;
+        if self.nonce % 2 == 1 && self.steps > 0 {
+            f |= 1;
+        }
+        if self.nonce % 3 == 0 && self.resp_bytes > 0 {
+            f |= 4;
+        }
+        f
+    }
+
     pub fn bytes(&self) -> Vec<u8> {
-        // Handlers of odd nonces that do real work drop their request context
-        // early (flag bit 0): a server must not depend on handlers holding it.
-        let flags = if self.nonce % 2 == 1 && self.steps > 0 { 1 } else { 0 };
+        self.bytes_with(false, false)
+    }
+
+    /// `close`: ask the server to close after this response (last request of
+    /// a connection).  `http10`: an HTTP/1.0 request (no keep-alive).
+    pub fn bytes_with(&self, close: bool, http10: bool) -> Vec<u8> {
         let xs = format!(
             "{};{};{};{};{};{}",
-            self.nonce, self.steps, self.step_ms, self.panic_at, self.resp_bytes, flags
+            self.nonce, self.steps, self.step_ms, self.panic_at, self.resp_bytes, self.flags()
         );
-        let headers = vec![hdr("host", "sim"), hdr("x-sim", &xs)];
+        let mut headers = vec![hdr("host", "sim"), hdr("x-sim", &xs)];
+        if close {
+            headers.push(hdr("connection", "close"));
+        }
+        if self.body.is_some() && self.nonce % 5 == 0 && !http10 {
+            // the body follows at once; hyper answers "100 Continue" when the
+            // handler first polls the body, which the client skips
+            headers.push(hdr("expect", "100-continue"));
+        }
+        // chunked transfer coding does not exist in HTTP/1.0
+        let out = self.bytes_inner(&headers, !http10);
+        let mut out = out;
+        if http10 {
+            // same request line with HTTP/1.0 (the body is arbitrary bytes:
+            // patch the line in place)
+            if let Some(p) = out.windows(11).position(|w| w == b" HTTP/1.1\r\n") {
+                out[p + 8] = b'0';
+            }
+        }
+        out
+    }
+
+    fn bytes_inner(&self, headers: &[(String, Vec<u8>)], may_chunk: bool) -> Vec<u8> {
         match &self.body {
-            None => build_request("GET", "/work", &headers, b"", &BodyFraming::None),
+            None => build_request("GET", "/work", headers, b"", &BodyFraming::None),
             Some(b) => {
                 let fr = match &self.chunked {
-                    Some(sizes) => BodyFraming::Chunked {
+                    Some(sizes) if may_chunk => BodyFraming::Chunked {
                         sizes: sizes.clone(),
                         ext: false,
                         trailer: false,
                     },
-                    None => BodyFraming::Length,
+                    _ => BodyFraming::Length,
                 };
-                build_request("PUT", "/work", &headers, b, &fr)
+                build_request("PUT", "/work", headers, b, &fr)
             }
         }
     }
     /// The same request as an HTTP/2 stream.
     pub fn h2(&self, req: usize, delay_ms: u64) -> H2Req {
-        let flags = if self.nonce % 2 == 1 && self.steps > 0 { 1 } else { 0 };
         let xs = format!(
             "{};{};{};{};{};{}",
-            self.nonce, self.steps, self.step_ms, self.panic_at, self.resp_bytes, flags
+            self.nonce, self.steps, self.step_ms, self.panic_at, self.resp_bytes, self.flags()
         );
         H2Req {
             method: if self.body.is_some() { "PUT".into() } else { "GET".into() },
